@@ -1,15 +1,14 @@
 CONSTANTS
-  MaxItems = 3
+  MaxItems = 2
   ChunkSize = 2
   QueryCacheMax = 1
   MaxEdits = 2
   Queries = {"", "a", "b", "ab"}
-  MaxReloads = 0
+  MaxReloads = 1
   TailN = 0
   BumpOnTrim = TRUE
-  StalePrevCount = FALSE
+  StalePrevCount = TRUE
   AllowOlder = FALSE
 SPECIFICATION Spec
-INVARIANTS PublishedIsFilter ShownIsFilter MergerCacheSound ChunkCacheSound Convergence
-PROPERTY Liveness
+INVARIANTS PublishedIsFilter
 CHECK_DEADLOCK FALSE
